@@ -1,0 +1,122 @@
+//! Hooks for property C31 (address-to-space resolution): read-only wrappers over the global
+//! `SFT_MAP` / `VM_MAP` and over the spaces of a plan.  No behaviour of their own.
+
+use crate::mmtk::{SFT_MAP, VM_MAP};
+use crate::util::alloc::AllocatorSelector;
+use crate::policy::space::Space;
+use crate::util::{Address, ObjectReference};
+use crate::vm::VMBinding;
+use crate::{Mutator, MMTK};
+
+/// `EMPTY_SFT_NAME`.
+pub const EMPTY_SFT_NAME: &str = crate::policy::sft::EMPTY_SFT_NAME;
+
+/// `heap_parameters::MAX_SPACES`.
+pub const MAX_SPACES: usize = crate::util::heap::layout::heap_parameters::MAX_SPACES;
+
+/// Type name of the SFT map implementation `create_sft_map()` selected for this process.
+pub fn sft_map_kind() -> &'static str {
+    SFT_MAP.verif_kind()
+}
+
+/// `SFT_MAP.get_checked(addr).name()`; documented to accept arbitrary addresses.
+pub fn sft_name_for(addr: Address) -> &'static str {
+    SFT_MAP.get_checked(addr).name()
+}
+
+/// `SFT_MAP.has_sft_entry(addr)`.
+pub fn has_sft_entry(addr: Address) -> bool {
+    SFT_MAP.has_sft_entry(addr)
+}
+
+/// `SFT_MAP.get_unchecked(addr).name()`.
+///
+/// # Safety
+/// `has_sft_entry(addr)` must hold (the documented precondition of `get_unchecked`).
+pub unsafe fn sft_name_unchecked(addr: Address) -> &'static str {
+    SFT_MAP.get_unchecked(addr).name()
+}
+
+/// Raw value of `VM_MAP.get_descriptor_for_address(addr)` (0 = `SpaceDescriptor::UNINITIALIZED`).
+pub fn descriptor_for(addr: Address) -> usize {
+    VM_MAP.get_descriptor_for_address(addr).verif_raw()
+}
+
+/// Type name of the `VMMap` implementation is not observable through the trait; the selection
+/// rule of `create_vm_map()` is `vm_layout().force_use_contiguous_spaces`.
+pub fn vm_map_is_map64() -> bool {
+    cfg!(target_pointer_width = "64")
+        && crate::util::heap::layout::vm_layout::vm_layout().force_use_contiguous_spaces
+}
+
+/// What a space says about itself.
+#[derive(Clone, Debug)]
+pub struct SpaceInfo {
+    pub name: &'static str,
+    /// The space has no `CommonSpace` (the malloc space: off-heap memory, no descriptor).
+    pub off_heap: bool,
+    pub descriptor: usize,
+    pub descriptor_is_contiguous: bool,
+    pub contiguous: bool,
+    pub start: Address,
+    pub extent: usize,
+}
+
+fn is_off_heap<VM: VMBinding>(space: &dyn Space<VM>) -> bool {
+    // MallocSpace::common() is unreachable!() by design
+    space.get_name() == "MallocSpace"
+}
+
+/// Every space of the plan of `mmtk`, in `for_each_space` order.
+pub fn spaces<VM: VMBinding>(mmtk: &MMTK<VM>) -> Vec<SpaceInfo> {
+    let mut out = vec![];
+    mmtk.get_plan()
+        .for_each_space(&mut |space: &dyn Space<VM>| {
+            if is_off_heap(space) {
+                out.push(SpaceInfo {
+                    name: space.get_name(),
+                    off_heap: true,
+                    descriptor: 0,
+                    descriptor_is_contiguous: false,
+                    contiguous: false,
+                    start: Address::ZERO,
+                    extent: 0,
+                });
+                return;
+            }
+            let c = space.common();
+            out.push(SpaceInfo {
+                name: space.get_name(),
+                off_heap: false,
+                descriptor: c.descriptor.verif_raw(),
+                descriptor_is_contiguous: c.descriptor.is_contiguous(),
+                contiguous: c.contiguous,
+                start: c.start,
+                extent: c.extent,
+            });
+        });
+    out
+}
+
+/// Names of the spaces of the plan whose `Space::in_space(object)` holds.
+pub fn spaces_claiming<VM: VMBinding>(mmtk: &MMTK<VM>, object: ObjectReference) -> Vec<&'static str> {
+    let mut out = vec![];
+    mmtk.get_plan()
+        .for_each_space(&mut |space: &dyn Space<VM>| {
+            if space.in_space(object) {
+                out.push(space.get_name());
+            }
+        });
+    out
+}
+
+/// Name of the space behind the allocator `selector` of `mutator`.
+///
+/// # Safety
+/// As `Mutator::allocator`: the selector must be valid for the mutator's plan.
+pub unsafe fn allocator_space_name<VM: VMBinding>(
+    mutator: &Mutator<VM>,
+    selector: AllocatorSelector,
+) -> &'static str {
+    mutator.allocator(selector).get_space().get_name()
+}
